@@ -126,6 +126,15 @@ def decode_x86(bs):
         if b == 0xFF:
             modrm = cbyte(need(1)[0], "modrm")
             ext = (modrm >> 3) & 7
+            if modrm == 0x25:
+                # jmp qword ptr [rip + disp32]: the destination is a literal, normally the 8 bytes that follow
+                d = need(5)[1:5]
+                dv = int_from_bytes(d, True)
+                if not dv.is_const():
+                    raise Undecodable("jmp [rip+disp32] with a displacement that is not constant")
+                out.append({"mn": "jmp_mem_rip", "off": start, "len": i + 6 - start, "disp": dv.sval()})
+                i += 6
+                break
             if modrm >> 6 != 3:
                 raise Undecodable("FF /%d with memory operand is outside the accepted subset" % ext)
             reg = (modrm & 7) | (B << 3)
@@ -158,8 +167,9 @@ def decode_x86(bs):
     return out, i
 
 
-def simulate_x86(ins):
-    """Returns dict: regs (name -> 64 abstract bits), written (set of names), transfer {kind, ...}, stack_effect, flags."""
+def simulate_x86(ins, code=None):
+    """Returns dict: regs (name -> 64 abstract bits), written (set of names), transfer {kind, ...}, stack_effect, flags.
+    `code`: the bytes written (needed when the sequence reads a literal out of itself)."""
     regs = {}
     written = []
     transfer = None
@@ -187,6 +197,12 @@ def simulate_x86(ins):
         elif mn == "jmp_reg":
             name = X86_REGS[k["reg"]]
             transfer = {"kind": "jmp_reg", "reg": name, "bits": regs.get(name)}
+        elif mn == "jmp_mem_rip":
+            addr = k["off"] + k["len"] + k["disp"]
+            if code is None or addr < 0 or addr + 8 > len(code):
+                raise Undecodable("jmp [rip%+d] at +%d reads its destination from [%d,%d), outside the %s written bytes" % (
+                    k["disp"], k["off"], addr, addr + 8, len(code) if code is not None else "unknown"))
+            transfer = {"kind": "jmp_reg", "reg": "[rip%+d]" % k["disp"], "bits": bits_of_bytes(code[addr:addr + 8]), "lit_off": addr}
         elif mn == "ret":
             transfer = {"kind": "ret"}
         elif mn in ("push", "pop"):
@@ -248,6 +264,7 @@ A64_PATTERNS = [
 
 def decode_a64(bs):
     out = []
+    ended = False
     for wi, w in enumerate(a64_words(bs)):
         found = None
         for name, pat in A64_PATTERNS:
@@ -258,6 +275,9 @@ def decode_a64(bs):
             if m:
                 found = name
                 break
+        if found is None and ended:
+            out.append({"mn": "data", "off": wi * 4, "bits": w})          # after an unconditional transfer: never executed (a literal, padding)
+            continue
         if found is None:
             raise Undecodable("A64 word %d (%s) matches no instruction of the accepted subset" % (
                 wi, "".join(str(b) if b in (0, 1) else "?" for b in reversed(w))))
@@ -282,14 +302,16 @@ def decode_a64(bs):
             rec["rn"] = const_field(_field(w, 9, 5), "Rn")
             rec["imm12"] = _field(w, 21, 10)
         elif found == "ldr_lit":
-            rec["rt"] = const_field(_field(w, 4, 0), "Rt")
+            rec["rd"] = rec["rt"] = const_field(_field(w, 4, 0), "Rt")
+            rec["x"] = const_field(_field(w, 30, 30), "opc<0>")          # 1: 64-bit load, 0: 32-bit (zero-extended)
+            rec["imm19"] = _field(w, 23, 5)
         out.append(rec)
         if found in ("b", "br", "ret"):
-            pass
+            ended = True
     return out
 
 
-def simulate_a64(ins, pc_expr=None):
+def simulate_a64(ins, pc_expr=None, code=None):
     """Straight-line semantics up to the first control transfer. Registers hold 64 abstract bits, or a symbolic
     record for ADRP/ADD results. Returns regs, written, transfer, executed (count), stack, calls."""
     regs = {}
@@ -302,6 +324,9 @@ def simulate_a64(ins, pc_expr=None):
         executed += 1
         if mn == "nop":
             continue
+        if k.get("rd") == 31 or k.get("rn") == 31:
+            # register number 31 is xzr in some of these encodings and sp in others; no patch sequence has a use for either
+            raise Undecodable("A64 '%s' with register number 31 (xzr/sp)" % mn)
         if mn in ("movz", "movn", "movk"):
             sh = 16 * k["hw"]
             if not k["sf"] and sh >= 32:
@@ -339,6 +364,18 @@ def simulate_a64(ins, pc_expr=None):
             else:
                 raise Undecodable("ADD (immediate) whose source is not a preceding ADRP result")
             written.append(name)
+            continue
+        if mn == "ldr_lit":
+            # LDR Xt, <label>: a literal inside the written bytes (the classic `ldr x16, #8 ; br x16 ; .quad target` veneer)
+            if not bits_const(k["imm19"]) or code is None:
+                raise Undecodable("LDR (literal) whose offset is not constant")
+            off = to_signed(const_field(k["imm19"], "imm19"), 19) * 4 + k["off"]
+            n = 8 if k["x"] else 4
+            if off < 0 or off + n > len(code):
+                raise Undecodable("LDR (literal) at +%d reads [%d,%d), outside the %d written bytes" % (k["off"], off, off + n, len(code)))
+            v = tuple(bits_of_bytes(code[off:off + n])) + (0,) * (64 - 8 * n)
+            regs["x%d" % k["rt"]] = v
+            written.append("x%d" % k["rt"])
             continue
         if mn == "b":
             transfer = {"kind": "b", "imm26": k["imm26"], "off": k["off"]}
@@ -384,6 +421,11 @@ def decode_a32(bs):
                 rec = {"mn": "ldr_lit", "off": wi, "rt": (v >> 12) & 15, "u": (v >> 23) & 1, "imm": v & 0xFFF, "cond": cond, "pc_bias": 8}
             elif (v & 0x0FE00000) == 0x03A00000:
                 rec = {"mn": "mov_imm", "off": wi, "rd": (v >> 12) & 15, "cond": cond}
+        if rec is not None and rec.get("cond", 0xE) != 0xE:
+            # the same word under another condition code executes only for some flag states (e.g. 0x012FFF1C = bxeq r12): whether the
+            # transfer happens would depend on what the caller left in NZCV
+            raise Undecodable("A32 word %#010x at +%d is `%s` under condition code %#x, not AL: it executes only for some caller flag states" % (
+                v, wi, rec["mn"], rec["cond"]))
         if rec is None:
             rec = {"mn": "data", "off": wi, "bits": w}
         out.append(rec)
@@ -469,6 +511,10 @@ def simulate_arm(ins, thumb, base_mod4, code_bytes):
             addr = aligned + k["imm"] if k["u"] else aligned - k["imm"]
             if addr < 0 or addr + 4 > len(code_bytes):
                 raise Undecodable("literal load at +%d reads [%d,%d) outside the %d written bytes" % (pos, addr, addr + 4, len(code_bytes)))
+            if k["rt"] == 15:
+                # LDR pc, [pc, #imm]: an interworking branch to the loaded word (ARMv5T and later), no scratch register involved
+                transfer = {"kind": "bx", "reg": "pc", "bits": bits_of_bytes(code_bytes[addr:addr + 4]), "off": pos, "lit_off": addr}
+                break
             regs["r%d" % k["rt"]] = bits_of_bytes(code_bytes[addr:addr + 4])
             regs["_lit_off_r%d" % k["rt"]] = addr
             written.append("r%d" % k["rt"])
